@@ -88,7 +88,7 @@ var readOnlyFuncs = map[string]bool{
 	"sigs.k8s.io/yaml.Marshal": true, "sigs.k8s.io/yaml.JSONToYAML": true, "sigs.k8s.io/yaml.YAMLToJSON": true,
 	"bytes.NewReader": true, "bytes.NewBuffer": true, "bytes.NewBufferString": true, "bytes.Equal": true,
 	"bytes.HasPrefix": true, "bytes.TrimPrefix": true, "bytes.TrimSpace": true, "bytes.Contains": true,
-	"io.ReadAll": true, "sort.Strings": false,
+	"io.ReadAll": true, "sort.Strings": false, "sort.Reverse": true, "sort.IsSorted": true, "sort.SearchStrings": true,
 }
 
 type modAnalysis struct {
@@ -456,7 +456,9 @@ func (ma *modAnalysis) commonMods(common *ssa.CallCommon) ModSet {
 		ms.union(cm)
 		// function-typed and interface-typed arguments of body-less callees may be called back
 		if len(sc.Blocks) == 0 {
-			ms.union(ma.callbackMods(sc, common.Args))
+			// (a read-only callee may still call a function value it is given — filepath.Walk —
+			// but is taken not to call mutating methods of interface-typed arguments)
+			ms.union(ma.callbackMods(sc, common.Args, !ma.readOnlyCallee(sc)))
 		}
 		// the callee calls some of its function-typed parameters: use the actual arguments
 		for i := range ma.paramCalls[sc] {
@@ -481,7 +483,20 @@ func (ma *modAnalysis) commonMods(common *ssa.CallCommon) ModSet {
 		}
 		// a pointer / map / slice boxed into an interface argument (json.Unmarshal(b, &x), a helm
 		// wrapper around it ...) can be written through by code that has no body here
-		if cm.opaque && !ma.readOnlyCallee(sc) {
+		if cm.opaque && !ma.readOnlyCallee(sc) && isSortPkgFunc(sc) {
+			// package sort writes only the elements of the slice it is given (directly, or through
+			// the Swap method, which callbackMods has accounted for)
+			for _, a := range common.Args {
+				if mi, ok := a.(*ssa.MakeInterface); ok {
+					if sl, ok := mi.X.Type().Underlying().(*types.Slice); ok {
+						ms.add(elemHeapName(sl.Elem()), ModAny)
+					}
+				}
+				if sl, ok := a.Type().Underlying().(*types.Slice); ok {
+					ms.add(elemHeapName(sl.Elem()), ModAny)
+				}
+			}
+		} else if cm.opaque && !ma.readOnlyCallee(sc) {
 			for _, a := range common.Args {
 				if mi, ok := a.(*ssa.MakeInterface); ok {
 					switch mi.X.Type().Underlying().(type) {
@@ -511,6 +526,16 @@ func (ma *modAnalysis) commonMods(common *ssa.CallCommon) ModSet {
 		ms.union(ma.calleeMods(t))
 	}
 	return ms
+}
+
+func isSortPkgFunc(fn *ssa.Function) bool {
+	if fn.Pkg != nil {
+		return fn.Pkg.Pkg.Path() == "sort"
+	}
+	if o := fn.Object(); o != nil && o.Pkg() != nil {
+		return o.Pkg().Path() == "sort"
+	}
+	return false
 }
 
 // resolveFuncValue finds the functions a function-typed value can denote when that is
@@ -707,7 +732,7 @@ func (ma *modAnalysis) typeReach(t types.Type, depth int, seen map[string]bool, 
 
 // callbackMods: body-less callee receiving function values or interface values
 // whose methods are implemented in loaded packages (sort.Sort(x), filepath.Walk(fn) ...).
-func (ma *modAnalysis) callbackMods(sc *ssa.Function, args []ssa.Value) ModSet {
+func (ma *modAnalysis) callbackMods(sc *ssa.Function, args []ssa.Value, ifaceMethods bool) ModSet {
 	var ms ModSet
 	for _, a := range args {
 		switch u := a.Type().Underlying().(type) {
@@ -726,7 +751,7 @@ func (ma *modAnalysis) callbackMods(sc *ssa.Function, args []ssa.Value) ModSet {
 				ms.union(ma.calleeMods(t))
 			}
 		case *types.Interface:
-			if u.NumMethods() == 0 {
+			if u.NumMethods() == 0 || !ifaceMethods {
 				continue
 			}
 			if mi, ok := a.(*ssa.MakeInterface); ok {
